@@ -17,6 +17,25 @@ from harness import core, tlc
 _FALSY = [None, 0, "", False, [], (), {}, 0.0]
 _PLAIN = [1, "a", 2, "b", 3, "c", 4, "d"]
 POOLS = {"falsy": _FALSY + _PLAIN, "plain": _PLAIN + _FALSY}
+
+
+def _equal_objects(n):
+    """n pairwise DISTINCT objects (identity, and mostly type) that all compare == to each other: 1, True, 1.0,
+    Fraction(1), Decimal(1), (1+0j) and further fresh float / Fraction / Decimal / complex objects.  The profile of
+    "equal but distinguishable" values: a subject must hand on the value it was given, not one that equals it."""
+    from decimal import Decimal
+    from fractions import Fraction
+    out = [1, True, 1.0, Fraction(1), Decimal(1), complex(1, 0)]
+    makers = [lambda: float("1.0"), lambda: Fraction(2, 2), lambda: Decimal("1.0"), lambda: complex("1+0j")]
+    k = 0
+    while len(out) < n:
+        out.append(makers[k % len(makers)]())
+        k += 1
+    assert all(a == b for a in out for b in out) and len({id(x) for x in out}) == len(out)
+    return out[:n]
+
+
+_EQUAL = _equal_objects(48)
 DISPOSED_TOK = 99
 
 
@@ -33,6 +52,9 @@ def _pool(variant):
     value before a completion ... - meets None, 0, '', False, [], (), {} and 0.0 over the variants;
     later tokens are plain values.  (An earlier version rotated the whole 16-element pool by a salt
     < 8: token 0 could become None but an EMITTED token, >= 1, never could.)"""
+    if variant.get("profile") == "equal":       # every token an object == to every other one; salt rotates which type sits where
+        s = variant.get("salt", 0) % 16
+        return _EQUAL[s:16] + _EQUAL[:s]
     s = variant.get("salt", 0) % len(_FALSY)
     rot = _FALSY[s:] + _FALSY[:s]
     if variant.get("profile", "falsy") == "plain":      # plain values first, the falsy rotation after them
@@ -323,9 +345,13 @@ def _variants(scn, tier="thorough"):
           dict(profile="falsy", salt=_focus_salt(last, 1 + h % 7), form="observer", err="sized"),
           dict(profile="falsy", salt=_focus_salt(first, 0), form="callbacks", err="sized"),
           dict(profile="plain", salt=h % 8, form="callbacks", err="plain")]
+    # equal-but-distinguishable values (1, True, 1.0, Fraction(1) ...): only where the history holds two values
+    # (a BehaviorSubject's initial value counts) - with one value the profile adds nothing over the others
+    eq = [dict(profile="equal", salt=h % 16, form="callbacks" if h % 2 else "observer", err="plain")] \
+        if len(toks) + (scn["kind"] == "behavior") >= 2 else []
     if tier == "quick":     # the first, and one of the others, alternating
-        return [vs[0], vs[1 + h % 3]]
-    return vs
+        return [vs[0], vs[1 + h % 3]] + eq
+    return vs + eq
 
 
 def _nontrivial(scn, allowed):
@@ -377,7 +403,8 @@ def run_kind(pid: str, kind: str, tier: str) -> int:
     ck.nontrivial = sum(1 for g in groups if _nontrivial(*g))
     # Binding C: adjacent calls of reaction-free histories issued concurrently on two threads (DetSched), judged
     # against the two sequential histories the specification exported
-    want, bound, per_level = (45, 2, (1, 40, 40)) if tier == "quick" else (600, 3, (1, 80, 120, 60))
+    # (five pairs per kind since subscribe || unsubscribe was added: 15 / 200 scenarios per pair as before)
+    want, bound, per_level = (75, 2, (1, 40, 40)) if tier == "quick" else (1000, 3, (1, 80, 120, 60))
     scen, total = conc_scenarios(lines, kind, want, ck.seed)
     execs = 0
     for sc_ in scen:
@@ -405,7 +432,7 @@ def run_kind(pid: str, kind: str, tier: str) -> int:
         "dispose() of the subject from inside a callback is not driven (the statement does not say whether the remaining members of the snapshot still receive the notification)",
         "observer callbacks do not raise (fault dimension belongs to C09)",
         "re-entrant emission is specified as call order (queued); the real depth-first delivery is a known finding",
-        "threads: only a subscribe racing with one emitting call, and (AsyncSubject) on_next racing with on_completed, are driven "
+        "threads: only a subscribe racing with one emitting call or with the unsubscription of another observer, and (AsyncSubject) on_next racing with on_completed, are driven "
         "(two logical threads under DetSched, switch points at every shim lock operation and at call-bearing lines of the subject/observer "
         "modules, preemption bound 2 quick / 3 thorough); the outcome must equal the specification's outcome for one of the two sequential orders",
         "dispose() from inside a callback: any subset of the observers whose turn has not come may be cut off; whoever is served gets the notification as made at the call",
@@ -425,14 +452,15 @@ NOLIMIT = 99
 _BIG = _FALSY + list(range(1, 41))      # 48 pairwise distinguishable objects (ints 1..40 are interned singletons)
 
 
-def _rtok_to_val(tok, salt):
+def _rtok_to_val(tok, salt, big=_BIG):
     # tokens 0..7 (top-level on_next calls) rotate over the eight falsy values, the rest are plain ints
+    # (big=_EQUAL: the same positions hold pairwise == but distinct objects)
     i = tok if tok < 100 else 20 + (tok - 100)
-    return _BIG[(i + salt) % 8] if i < 8 else _BIG[i]
+    return big[(i + salt) % 8] if i < 8 else big[i]
 
 
-def _rval_to_tok(v, salt):
-    idx = _ident(_BIG, v)
+def _rval_to_tok(v, salt, big=_BIG):
+    idx = _ident(big, v)
     if idx < 0:
         return -1
     i = (idx - salt) % 8 if idx < 8 else idx
@@ -449,6 +477,7 @@ def perform_replay(scn: Dict[str, Any], variant: Dict[str, Any]) -> Dict[str, An
     from reactivex.testing import TestScheduler
 
     salt = variant.get("salt", 0)
+    big = _EQUAL if variant.get("profile") == "equal" else _BIG
     hist = variant.get("clock") == "hist"
     eager = bool(scn.get("eager"))
     # Eager: the default scheduler (current-thread trampoline) - every call returns after its deliveries
@@ -483,7 +512,7 @@ def perform_replay(scn: Dict[str, Any], variant: Dict[str, Any]) -> Dict[str, An
                 if what == "unsub":
                     subs[o].dispose()
                 elif what == "next":
-                    subject.on_next(_rtok_to_val(100 + o, salt))
+                    subject.on_next(_rtok_to_val(100 + o, salt, big))
                 elif what == "completed":
                     subject.on_completed()
                 elif what == "sub":
@@ -492,7 +521,7 @@ def perform_replay(scn: Dict[str, Any], variant: Dict[str, Any]) -> Dict[str, An
                 problems.append("reaction %s of %d raised %s" % (what, o, type(e).__name__))
 
         def on_next(v):
-            logs[o].append(["N", _rval_to_tok(v, salt)])
+            logs[o].append(["N", _rval_to_tok(v, salt, big)])
             react()
 
         def on_error(e):
@@ -527,7 +556,7 @@ def perform_replay(scn: Dict[str, Any], variant: Dict[str, Any]) -> Dict[str, An
             elif c == "unsub":
                 subs[a].dispose()
             elif c == "next":
-                subject.on_next(_rtok_to_val(a, salt))
+                subject.on_next(_rtok_to_val(a, salt, big))
             elif c == "error":
                 subject.on_error(errs[a])
             elif c == "completed":
@@ -651,13 +680,16 @@ def _replay_variants(tier):
         toks = [c["a"] for c in scn["top"] if c["c"] == "next" and c["a"] < 8]
         last, first = (toks[-1], toks[0]) if toks else (1, 1)
         none_last, none_first, other = (0 - last) % 8, (0 - first) % 8, (1 + h % 7 - last) % 8   # salts: that token is None / another falsy value
+        nvals = sum(1 for c in scn["top"] if c["c"] == "next") + sum(1 for c in scn["top"] if c["c"] == "sub" and c["p"][1] == "next")
+        # equal-but-distinguishable values (1, True, 1.0 ...) where the history can hold two values
+        eq = [dict(profile="equal", salt=h % 8, clock="current" if scn.get("eager") else ("hist" if h % 2 else "test"), err="plain")] if nvals >= 2 else []
         if scn.get("eager"):     # no virtual clock: one run per value rotation
-            return [dict(salt=none_last, clock="current", err="plain"), dict(salt=other, clock="current", err="sized")]
+            return [dict(salt=none_last, clock="current", err="plain"), dict(salt=other, clock="current", err="sized")] + eq
         vs = [dict(salt=none_last, clock="test", err="plain"), dict(salt=other if h % 2 else none_first, clock="hist", err="sized")]
         if tier != "quick":
             vs.append(dict(salt=none_first, clock="test", window_as="timedelta", unit=0.25))
             vs.append(dict(salt=other, clock="hist", err="plain"))
-        return vs
+        return vs + eq
     return f
 
 
@@ -703,6 +735,22 @@ def run_replay(pid: str, tier: str) -> int:
         for f in fails:
             ck.fail(f)
 
+    # Binding C: a subscribe and the adjacent emitting call of reaction-free exhaustive histories on two threads
+    want, bound, per_level = (24, 2, (1, 30, 30)) if tier == "quick" else (300, 3, (1, 80, 120, 60))
+    scen, total = rconc_scenarios(lines, want, ck.seed)
+    execs = 0
+    for sc_ in scen:
+        v = dict(salt=0, profile="equal" if sc_["i"] % 2 else "falsy")
+        k, fails = rconc_judge((sc_["scn"], sc_["i"], sc_["allowed"], v, bound, per_level, ck.seed))
+        execs += k
+        for f in fails:
+            ck.fail(f)
+    ck.impl += execs
+    ck.note("concurrent_scenarios", {"driven": len(scen), "available": total, "schedules_executed": execs, "preemption_bound": bound,
+                                     "pairs": sorted({"%s || %s" % tuple(x["pair"]) for x in scen})})
+    if not scen or not execs:
+        raise RuntimeError("no concurrent scenario was driven")
+
     def nontrivial(scn, allowed):   # some subscriber was replayed a retained value: its log starts with a value written before it subscribed
         seen_next = 0
         for c in scn["top"]:
@@ -727,7 +775,10 @@ def run_replay(pid: str, tier: str) -> int:
         "per-subscriber logs are compared where the scheduler has run (after drain / advance_by and at the end); that nothing is delivered inside subscribe()/on_next() is not asserted",
         "the relative order in which different subscribers are served is the scheduler's choice (all interleavings accepted)",
         "dispose() while deliveries are pending is not driven; subscribe on a disposed subject may raise or deliver the DisposedException",
-        "values compared by identity over a pool starting with None, 0, '', False, [], (), {}, 0.0",
+        "values compared by identity over a pool starting with None, 0, '', False, [], (), {}, 0.0; one more run per history with pairwise == but distinct values (1, True, 1.0, Fraction(1) ...)",
+        "threads: only a subscribe racing with the adjacent on_next / on_error / on_completed is driven (two logical threads under DetSched, switch points at the shim lock "
+        "operations and call-bearing lines of replaysubject.py / subject.py / scheduledobserver.py, preemption bound 2 quick / 3 thorough, TestScheduler run afterwards); the outcome must be "
+        "the specification's outcome for one of the two sequential orders",
     ]
     return ck.finish()
 
@@ -746,6 +797,8 @@ def _trimmed(scn, allowed):
 
 
 def replay_replay(rec) -> int:
+    if rec.get("engine") == "replay-conc":
+        return rconc_replay(rec)
     f = judge_replay(rec["scn"], rec["expected"], rec["variant"])
     print(json.dumps(f, default=str)[:3000] if f else "replay: observation allowed by the spec")
     return 1 if f else 0
@@ -760,7 +813,10 @@ def replay_replay(rec) -> int:
 # Subject are NOT driven (their deliveries run outside the lock and may interleave per observer - C43's matter).
 CONC_FOCUS = ("reactivex/subject/subject.py", "reactivex/subject/behaviorsubject.py", "reactivex/subject/asyncsubject.py",
               "reactivex/subject/innersubscription.py", "reactivex/observer/observer.py")
-CONC_PAIRS = {("sub", "completed"), ("sub", "error"), ("sub", "next"), ("next", "completed")}
+# A subscribe racing with the unsubscription of ANOTHER observer (both orders give the same membership; a lost or a
+# resurrected subscriber shows in the emissions of the sequential suffix) - the two calls update the observer list
+# under different locks (InnerSubscription.lock / Subject.lock).
+CONC_PAIRS = {("sub", "completed"), ("sub", "error"), ("sub", "next"), ("next", "completed"), ("unsub", "sub"), ("sub", "unsub")}
 
 
 def _conc_patches():
@@ -797,7 +853,9 @@ def conc_scenarios(lines, kind, want, seed):
                 continue
             nlive = ln["obs"]["steps"][i - 1] if i else []
             out.append({"scn": ln["scn"], "i": i, "pair": [a["c"], b["c"]], "allowed": [ln["obs"], other["obs"]],
-                        "weight": len(nlive)})
+                        "weight": len(nlive),
+                        # an emitting call after the pair shows who is subscribed once both calls have returned
+                        "emits_after": any(c["c"] in EMITS for c in top[i + 2:])})
     rnd = random.Random(seed)
     rnd.shuffle(out)
     # prefer scenarios with observers already attached and the subject still live (more to get wrong), one stratum per pair
@@ -807,6 +865,8 @@ def conc_scenarios(lines, kind, want, seed):
     chosen = []
     per = max(1, want // max(1, len(by)))
     for pair, ss in sorted(by.items()):
+        if "unsub" in pair:     # membership-only pairs: nothing is observable without a later emission
+            ss = [s for s in ss if s["emits_after"]]
         ss.sort(key=lambda s: -s["weight"])
         chosen += ss[:per]
     return chosen, len(out)
@@ -961,5 +1021,185 @@ def conc_replay(rec) -> int:
         ds, got = conc_perform(rec["scn"], rec["i"], rec["variant"], fastsched.LevelExplorer._chooser(pre))
     ok = not got["hung"] and not got["crashed"] and (
         _conc_same(rec["scn"], rec["i"], got, rec["expected"][0], False) or _conc_same(rec["scn"], rec["i"], got, rec["expected"][1], True))
+    print("replay: " + ("one of the two sequential outcomes" if ok else "NOT a sequential outcome: " + json.dumps(got, default=str)[:1500]))
+    return 0 if ok else 1
+
+
+# =============================================================================================
+# Binding C for the ReplaySubject: a subscribe and the adjacent emitting call (on_next / on_error / on_completed) of an
+# exported reaction-free SubjectsReplay history issued on two threads (DetSched); prefix and suffix (including every
+# run of the virtual-time scheduler) sequentially.  "Replay, then terminal if one occurred, then every later
+# notification, nothing duplicated or reordered" holds for both orders of the two calls, so the final per-subscriber
+# logs and the call outcomes must be those the specification exported for `... A B ...` or for `... B A ...`.
+RCONC_FOCUS = ("reactivex/subject/replaysubject.py", "reactivex/subject/subject.py", "reactivex/observer/scheduledobserver.py")
+RCONC_PAIRS = {("sub", "next"), ("sub", "completed"), ("sub", "error"), ("next", "sub"), ("completed", "sub"), ("error", "sub")}
+
+
+def _rconc_patches():
+    from harness import shims
+    return {"reactivex.subject.subject": {"threading": shims.threading_ns},
+            "reactivex.observer.scheduledobserver": {"threading": shims.threading_ns},
+            "reactivex.observable.observable": {"threading": shims.threading_ns}}
+
+
+def rconc_scenarios(lines, want, seed):
+    import random
+    plain = {}
+    for ln in lines:
+        scn, obs = ln["scn"], ln["obs"]
+        if obs["amb"] or scn.get("eager") or any(c["p"][0] for c in scn["top"]):
+            continue
+        plain.setdefault(json.dumps([scn["bs"], scn["win"], scn["top"]]), []).append(ln)
+    out = []
+    for key, lns in plain.items():
+        scn = lns[0]["scn"]
+        top = scn["top"]
+        for i in range(len(top) - 1):
+            a, b = top[i], top[i + 1]
+            if (a["c"], b["c"]) not in RCONC_PAIRS or a["c"] != "sub":     # each unordered pair once (the swap is the other order)
+                continue
+            other = plain.get(json.dumps([scn["bs"], scn["win"], top[:i] + [b, a] + top[i + 2:]]))
+            if other is None:
+                continue
+            retained = sum(1 for c in top[:i] if c["c"] == "next")
+            out.append({"scn": scn, "i": i, "pair": [a["c"], b["c"]], "allowed": [[l["obs"] for l in lns], [l["obs"] for l in other]],
+                        "weight": retained})
+    rnd = random.Random(seed)
+    rnd.shuffle(out)
+    by = {}
+    for s in out:
+        by.setdefault(tuple(s["pair"]), []).append(s)
+    chosen = []
+    per = max(1, want // max(1, len(by)))
+    for pair, ss in sorted(by.items()):
+        ss.sort(key=lambda s: -min(s["weight"], 2))      # a backlog to replay (values written before the racing subscribe)
+        chosen += ss[:per]
+    return chosen, len(out)
+
+
+def rconc_perform(scn, i, variant, choose, max_steps=8000):
+    from harness import fastsched
+    from reactivex.internal import DisposedException
+    from reactivex.scheduler import VirtualTimeScheduler
+    from reactivex.subject import ReplaySubject
+    from reactivex.testing import TestScheduler
+
+    salt = variant.get("salt", 0)
+    big = _EQUAL if variant.get("profile") == "equal" else _BIG
+    errs = _errors(variant)
+    top = scn["top"]
+    state: Dict[str, Any] = {}
+
+    def build(ds):
+        sched = TestScheduler()
+        bs = None if scn["bs"] == NOLIMIT else scn["bs"]
+        win = None if scn["win"] == NOLIMIT else float(scn["win"])
+        subject = ReplaySubject(bs, win, sched)
+        logs: Dict[int, List[Any]] = {}
+        subs: Dict[int, Any] = {}
+        res: Dict[int, Any] = {}
+        state.update(logs=logs, res=res, sched=sched)
+
+        def do(k):
+            cmd = top[k]
+            c, a = cmd["c"], cmd["a"]
+            out: Any = 0
+            try:
+                if c == "sub":
+                    lg = logs[a] = []
+                    subs[a] = subject.subscribe(lambda v: lg.append(["N", _rval_to_tok(v, salt, big)]),
+                                                lambda e: lg.append(["E", DISPOSED_TOK if isinstance(e, DisposedException) else _ident(errs, e)]),
+                                                lambda: lg.append(["C", 0]))
+                    if lg and lg[-1] == ["E", DISPOSED_TOK]:
+                        out = 2
+                elif c == "unsub":
+                    subs[a].dispose()
+                elif c == "next":
+                    subject.on_next(_rtok_to_val(a, salt, big))
+                elif c == "error":
+                    subject.on_error(errs[a])
+                elif c == "completed":
+                    subject.on_completed()
+                elif c == "dispose":
+                    subject.dispose()
+                elif c == "drain":
+                    VirtualTimeScheduler.start(sched)
+                elif c == "tick":
+                    sched.advance_by(float(a))
+                else:
+                    raise ValueError(c)
+            except DisposedException:
+                out = 1
+            except Exception as e:
+                out = "X:" + type(e).__name__
+            res[k] = out
+        state["do"] = do
+        for k in range(i):
+            do(k)
+        ds.spawn("TA", lambda: do(i))
+        ds.spawn("TB", lambda: do(i + 1))
+
+    ds = fastsched.run_execution(build, choose, RCONC_FOCUS, max_steps, reuse_threads=True)
+    hung = ds.deadlocked or ds.step_limit_hit
+    crashed = [repr(t.exc) for t in ds.threads if t.exc is not None]
+    if not hung and not crashed:
+        for k in range(i + 2, len(top)):
+            state["do"](k)
+        try:
+            VirtualTimeScheduler.start(state["sched"])
+        except Exception as e:
+            crashed.append("final drain raised " + type(e).__name__)
+    logs, res = state["logs"], state["res"]
+    nids = 2 * scn["ms"]
+    return ds, {"res": [res.get(k) for k in range(len(top))], "logs": [logs.get(o, []) for o in range(1, nids + 1)],
+                "hung": hung, "crashed": crashed}
+
+
+def _rconc_ok(scn, i, got, allowed):
+    if got["hung"] or got["crashed"]:
+        return False
+    n = len(scn["top"])
+    for swapped, exps in ((False, allowed[0]), (True, allowed[1])):
+        order = list(range(n))
+        if swapped:
+            order[i], order[i + 1] = i + 1, i
+        for exp in exps:
+            exp_res = {k: exp["res"][pos] for pos, k in enumerate(order)}
+            if all(got["res"][k] == exp_res[k] for k in range(n)) and got["logs"] == exp["logs"]:
+                return True
+    return False
+
+
+def rconc_judge(item):
+    from harness import fastsched, shims
+    scn, i, allowed, variant, bound, per_level, seed = item
+    fails, seen_sig, n = [], set(), 0
+    with shims.patched(extra=_rconc_patches(), only=list(_rconc_patches())):
+        ex = fastsched.LevelExplorer(bound=bound, per_level=per_level, random_schedules=0, seed=seed)
+        last = {}
+
+        def run_one(choose):
+            ds, got = rconc_perform(scn, i, variant, choose)
+            last["got"] = got
+            return ds
+        for ds in ex.explore(run_one):
+            n += 1
+            got = last["got"]
+            sig = json.dumps(got, default=str)
+            if not _rconc_ok(scn, i, got, allowed) and len(fails) < 3 and sig not in seen_sig:
+                seen_sig.add(sig)
+                fails.append({"engine": "replay-conc", "kind": "replay", "variant": variant, "scn": scn, "i": i,
+                              "pair_name": scn["top"][i]["c"] + "||" + scn["top"][i + 1]["c"],
+                              "expected": [[{k: e[k] for k in ("res", "logs")} for e in es] for es in allowed], "observed": got,
+                              "failure": "hang" if got["hung"] else ("crashed" if got["crashed"] else "not_linearizable"),
+                              "schedule": [d[1] for d in ds.decisions], "bs": scn["bs"], "win": scn["win"]})
+    return n, fails
+
+
+def rconc_replay(rec) -> int:
+    from harness import fastsched, shims
+    with shims.patched(extra=_rconc_patches(), only=list(_rconc_patches())):
+        ds, got = rconc_perform(rec["scn"], rec["i"], rec["variant"], fastsched.LevelExplorer._chooser(rec["schedule"]))
+    ok = _rconc_ok(rec["scn"], rec["i"], got, rec["expected"])
     print("replay: " + ("one of the two sequential outcomes" if ok else "NOT a sequential outcome: " + json.dumps(got, default=str)[:1500]))
     return 0 if ok else 1
